@@ -83,6 +83,8 @@ def _opts(rng):
         o['docstr'] = rng.choice(DOCSTR)
     if rng.random() < 0.1:
         o['set_norm'] = 'call'
+    if rng.random() < 0.3:
+        o['op_side'] = 'right'
     return o
 
 
@@ -225,6 +227,7 @@ def run_op(src, op, opts):
         try:
             el = _orig_elems(t.a, op[2], op[3], op[4])
             orig_dump = [tuple(ops.norm_dump(x, docstr) if x is not None else None for x in e) if isinstance(e, tuple)
+                         else ast.dump(ast.Name(id=e, ctx=ast.Load())) if isinstance(e, str)
                          else ops.norm_dump(e, docstr) for e in el]
         except Exception:
             orig_dump = None
@@ -477,6 +480,65 @@ def run_op(src, op, opts):
     return out
 
 
+def run_prim(src, op, promote):
+    """get() of a primitive field (identifier, constant, element of a list of names) with the `promote` option: the node
+    made for it must cover exactly its own source, carry the value, and the read must leave the tree alone."""
+    from fst import FST
+    out = {'fails': [], 'recs': [], 'tally': []}
+    A = _mk(src)
+    t = list(A.walk(True))[op[1]]
+    fld, i = op[2], op[3]
+    label = 'promoted-' + ('element' if i is not None else 'field')
+
+    def fail(cls, what):
+        out['fails'].append((f'C07|get|{label}|{cls}', f'{t.a.__class__.__name__}.{fld}: ' + what))
+
+    src0, dump0, links0 = A.src, util.dump_pos(A.a), _links(A)
+    v = getattr(t.a, fld)
+    if i is not None:
+        v = v[i]
+    try:
+        r = t.get(i, field=fld, promote=promote) if i is not None else t.get(field=fld, promote=promote)
+    except Exception as e:
+        out['tally'].append(('prim_raised', _exc_name(e)))
+        if _exc_name(e) not in ops.REFUSALS:
+            fail('raised-' + _exc_name(e), f'get(promote={promote!r}) raised {e!r}')
+        r = None
+    if A.src != src0:
+        fail('source-changed', 'the source text of the tree changed')
+    elif util.dump_pos(A.a) != dump0:
+        fail('tree-changed', 'ast.dump(include_attributes) of the tree changed')
+    elif _links(A) != links0:
+        fail('links-changed', 'FST links of the tree changed')
+    if not isinstance(r, FST):
+        out['tally'].append(('prim_returned', type(r).__name__))
+        return out
+    out['tally'].append(('prim_promoted', r.a.__class__.__name__))
+    ls = r.lines
+    want = [1, 0, len(ls), len(ls[-1].encode())]
+    got = [getattr(r.a, k, None) for k in ('lineno', 'col_offset', 'end_lineno', 'end_col_offset')]
+    if got != want:
+        fail('pos', f'promoted node has position {got}, its source {r.src!r} spans {want}')
+    if isinstance(r.a, ast.Name):
+        if r.a.id != v or r.src != v:
+            fail('value', f'promoted Name id {r.a.id!r} / source {r.src!r} for identifier {v!r}')
+    elif isinstance(r.a, ast.Constant) and fld == 'conversion':
+        if v >= 0 and r.a.value != chr(v):         # documented: conversion is returned as a string Constant ('r', 's', 'a')
+            fail('value', f'promoted conversion {r.a.value!r} for {chr(v)!r}')
+    elif isinstance(r.a, ast.Constant):
+        try:
+            lv = ast.literal_eval(r.src)
+        except Exception as e:
+            lv = e
+        if v is ... and r.src == 'Ellipsis':
+            fail('ellipsis-repr', "promoted Constant(...) has source 'Ellipsis' (repr), which reads back as a Name, not as the constant")
+        elif r.a.value != v or type(r.a.value) is not type(v) or lv != v or type(lv) is not type(v):
+            fail('value', f'promoted Constant value {r.a.value!r} / source {r.src!r} (reads as {lv!r}) for {v!r}')
+    if r.parent is not None:
+        fail('not-root', 'promoted node is not a root')
+    return out
+
+
 def _enum_ops(root, rng, nops):
     full = nops >= 1000
     nodes = list(root.walk(True))
@@ -523,10 +585,28 @@ def _enum_ops(root, rng, nops):
                     routes = [rng.choice(['slice', 'slice', 'view', 'get'])]
                 for route in routes:
                     slices.append(('slice', idx, field, i, j, route))
+    prims = []
+    for idx, f in enumerate(nodes):
+        a = f.a
+        if isinstance(a, (ast.expr_context, ast.operator, ast.cmpop, ast.boolop, ast.unaryop)):
+            continue
+        for fld in a._fields:
+            v = getattr(a, fld, None)
+            if isinstance(v, ast.AST) or fld in ('ctx', 'type_comment', 'type_ignores'):
+                continue
+            if isinstance(v, list):
+                if v and all(isinstance(x, str) for x in v):
+                    for i in sorted({0, len(v) - 1}):
+                        prims.append(('prim', idx, fld, i))
+            elif v is not None or isinstance(a, (ast.Constant, ast.MatchSingleton)):
+                prims.append(('prim', idx, fld, None))
     rng.shuffle(copies)
     rng.shuffle(slices)
+    rng.shuffle(prims)
     if nops >= 1000:            # deterministic product: every op of the program
-        return copies + slices
+        return copies + slices + prims
+    copies = copies + prims[:max(2, nops // 5)]
+    rng.shuffle(copies)
     k = nops // 2
     return copies[:k] + slices[:nops - min(k, len(copies))]
 
@@ -543,7 +623,11 @@ def _prog_case(arg):
     for op in _enum_ops(root, rng, nops):
         opts = _opts(rng)
         try:
-            r = run_op(src, op, opts)
+            if op[0] == 'prim':
+                opts = {'promote': rng.choice(['all', 'all', 'identifier', True])}
+                r = run_prim(src, op, opts['promote'])
+            else:
+                r = run_op(src, op, opts)
         except Exception as e:       # the harness itself (or an API it relies on) failed
             import traceback
             r = {'fails': [], 'recs': [], 'tally': [('harness_exception', _exc_name(e))], 'hexc': traceback.format_exc()[-1500:]}
@@ -770,6 +854,11 @@ SHAPES = [
     's = f"{é!r:>{ñ}} ü {ä=}"\nt = "é" "ü" f"{ñ}"\n',
     'é = ü = ñ = 1\né: ä = 2\né += ü\nassert é, ñ\nraise É from ü\n',
     'if é:\n    ü\nelif ñ:\n    ä\nelse:\n    ö\nwhile é: ü; ñ\nfor é in ü: ñ\nelse: ä\n',
+    'z = ñ < é <= ü != ä\nw = ñ and é and ü or ä or ö\nv = (ñ <\n     é > ü)\n',
+    'match v:\n    case "é" | ü.ñ | É() | ñ: pass\n    case ("é" | ñ): pass\n    case [ñ, "é" | ü | ä]: pass\n',
+    'def f(a, b, /, c, *, d, e=1): pass\ng = lambda ä, ö, /, ü, *, é=1, ñ: 0\ndef h(*, k): pass\ndef i(a, /): pass\ndef j(a, *, k, **kw): pass\n',
+    'y = é, ñ, \\\n  ü\nfor é, ñ in ü, ä,  \\\n  ö: pass\nz = "é", "ñ" ,  # c\nw[é, ñ,\n  ü] = 1\n',
+    'def g():\n    global ä, ö, ü\n    def h():\n        nonlocal ñ, é\n    global ç\n',
 ]
 
 EXTRA = [
@@ -925,7 +1014,10 @@ def replay(ctx, data):
         print('replay file names a broken obligation, not an input:', [b for b in data.get('broken', [])][:3])
         return
     opts = {k: (tuple(v) if isinstance(v, list) else v) for k, v in w['opts'].items()}
-    r = run_op(w['src'], tuple(w['op']), opts)
+    if w['op'][0] == 'prim':
+        r = run_prim(w['src'], tuple(w['op']), opts.get('promote', 'all'))
+    else:
+        r = run_op(w['src'], tuple(w['op']), opts)
     for sig, what in r['fails']:
         ctx.fail(sig, what, w)
 
